@@ -349,6 +349,8 @@ Definition ent_ppl (e : str * rent ppl) : ppl :=
   match snd e with
   | RObj p => p
   | RCall d => {| p_id := 0; p_items := d_items d; p_post := d_post d; p_fin := d_fin d; p_prio := d_prio d; p_name := d_name d |}
+  | RSeq ds => let d := seq_pick 0 ds in
+               {| p_id := 0; p_items := d_items d; p_post := d_post d; p_fin := d_fin d; p_prio := d_prio d; p_name := d_name d |}
   end.
 Definition is_obj (e : str * rent ppl) : Prop := exists p, snd e = RObj p.
 Definition objs_only (t : list (str * rent ppl)) : Prop := forall e, In e t -> is_obj e.
